@@ -109,6 +109,7 @@ structure Facts where
   methods : List (Nat × Nat × Nat × List (List ASel)) := []
   roots : List Nat := []
   pt : Std.HashMap (Nat × Nat) (List Label) := {}
+  ipt : List (Nat × Nat × List Label) := []
   cg : Std.HashSet (Nat × Nat × Nat) := {}
   cgList : List (Nat × Nat × Nat) := []
   reach : Std.HashSet Nat := {}
@@ -152,6 +153,10 @@ def parseLine (F : Facts) (line : String) : Facts :=
   | ["pt", f, r, labs] =>
     match f.toNat?, r.toNat?, parseLabels labs with
     | some f, some r, some ls => { F with pt := F.pt.insert (f, r) ls }
+    | _, _, _ => badline
+  | ["ipt", f, r, labs] =>
+    match f.toNat?, r.toNat?, parseLabels labs with
+    | some f, some r, some ls => { F with ipt := (f, r, ls) :: F.ipt }
     | _, _, _ => badline
   | ["cg", f, c, g] =>
     match f.toNat?, c.toNat?, g.toNat? with
@@ -303,6 +308,7 @@ def Facts.res (F : Facts) (P : Prog) : Res :=
   { pt := fun f r => ptReg F D f r,
     cg := fun f c g => F.cg.contains (f, c, g),
     reach := fun f => F.reach.contains f,
-    heap := fun l => heapOf D l }
+    heap := fun l => heapOf D l,
+    iq := F.ipt }
 
 end PtrFacts
